@@ -599,7 +599,7 @@ func normalisePath(p string, reader bool) string {
 
 // pathSet returns the normalised, de-duplicated path set of f.
 func (c *Ctx) pathSet(f *ssa.Function, reader bool) ([]string, bool) {
-	ps, trunc := c.tracePaths(f, 64)
+	ps, trunc := c.tracePaths(f, 64*c.scale())
 	m := map[string]bool{}
 	for _, p := range ps {
 		m[normalisePath(p, reader)] = true
